@@ -60,7 +60,7 @@ def _factory(rel, pkg, mod, fn, modfuncs):
         raise TieBroken(where + ": more than one wavenumber parameter")
     param = wp[0] if wp else None
     out = {"package": pkg, "module": mod, "name": fn.name, "param": param, "redirect": None,
-           "requires_real": False, "other_guards": 0, "line": fn.lineno}
+           "requires_real": False, "other_guards": 0, "line": fn.lineno, "alters_points": False}
     alias = {}
     desc = None
     body = list(fn.body)
@@ -69,6 +69,16 @@ def _factory(rel, pkg, mod, fn, modfuncs):
         if isinstance(s, ast.Expr) and isinstance(s.value, ast.Constant) and isinstance(s.value.value, str):
             continue
         if isinstance(s, ast.Import):
+            continue
+        # the factory rewrites its evaluation points before handing them on: recorded as a fact (theorem: no factory does)
+        if isinstance(s, ast.Assign) and len(s.targets) == 1 and isinstance(s.targets[0], ast.Name) and \
+                s.targets[0].id == "points":
+            out["alters_points"] = True
+            continue
+        if isinstance(s, ast.If) and s.body and all(
+                isinstance(b, ast.Assign) and len(b.targets) == 1 and isinstance(b.targets[0], ast.Name) and
+                b.targets[0].id == "points" for b in list(s.body) + list(s.orelse)):
+            out["alters_points"] = True
             continue
         if isinstance(s, ast.ImportFrom):
             for a in s.names:
@@ -201,10 +211,11 @@ def factories(ctx):
     for f in table:
         red = "None" if f["redirect"] is None else "(Some (%s, %s, %s))" % (
             s(f["redirect"]["module"]), s(f["redirect"]["name"]), f["redirect"]["arg"])
-        rows.append("   mkFactory %s %s %s %s %s %s %s [%s] %s %s %s" % (
+        rows.append("   mkFactory %s %s %s %s %s %s %s [%s] %s %s %s %s" % (
             s(f["package"]), s(f["module"]), s(f["name"]), "true" if f["param"] else "false", red,
             "true" if f["requires_real"] else "false", s(f["identifier"]), "; ".join(f["options"]),
-            s(f["kernel_type"]), s(f["assembly_type"]), "true" if f["is_complex"] else "false"))
+            s(f["kernel_type"]), s(f["assembly_type"]), "true" if f["is_complex"] else "false",
+            "true" if f["alters_points"] else "false"))
     out.append(";\n".join(rows))
     out.append("  ].")
     ctx.write_gen("Dispatch.v", "\n".join(out) + "\n")
